@@ -955,6 +955,7 @@ func main() {
 	sb.WriteString("From G11 Require Import TimeoutsCheck.\nOpen Scope Z_scope.\n")
 	sb.WriteString("Definition tcases : list tcase :=\n " + listOf("tcase", tl) + ".\n")
 	sb.WriteString("Definition acases : list acase :=\n " + listOf("acase", al) + ".\n")
+	sb.WriteString("Open Scope N_scope.\n")
 	sb.WriteString("Definition M := Eval vm_compute in (bad tcase_model_ok tcases).\nPrint M.\n")
 	sb.WriteString("Definition P := Eval vm_compute in (bad tcase_prop_ok tcases).\nPrint P.\n")
 	sb.WriteString("Definition MA := Eval vm_compute in (bad acase_model_ok acases).\nPrint MA.\n")
